@@ -22,6 +22,25 @@ def fuzz(name, test, seconds, **kw):
 NOT_CLAIMED = {}
 
 PROPS = {
+    "C02": dict(
+        technique="PBT with a reference evaluator (typed trees printed with minimal/redundant parentheses and every spelling) + exhaustive operator-table and precedence-triple enumeration",
+        level_text="Generated typed expression trees (depth <= 5, 1 in 7 nodes deliberately ill-typed in a third of the cases) over literals, variables holding "
+                   "arbitrary doubles (NaN, infinities, -0 included), booleans, strings and logging probe calls are printed with the minimal parentheses the "
+                   "precedence table requires and evaluated by the real runner; value (type and bits), error-ness and the order/count of probe calls must equal "
+                   "the reference evaluator's. Exhaustive: every operator x operand-type pair x spelling; every unparenthesised chain a op1 b op2 c; unary "
+                   "operators against every binary operator; short-circuit with failing right operands. Search, not proof.",
+        level_note="The reference evaluator and printer (harness/model_expr_test.go) are written from the property text and are the trusted base; values are captured "
+                   "through a host function (exact bits), not through text.",
+        rule="typed trees from a recursive generator; non-trivial = at least two operators from different precedence levels, or a host call in the right operand of "
+             "and/or, or an ill-typed node; distinct = distinct (tree, variable values).",
+        assumptions=["string literals avoid the double quote and the backslash (not unescaped by the runner; outside the statement)",
+                     "a panic on an ill-typed expression is left to C06 (discarded here, counted)"],
+        subs=[
+            rapid("eval", "TestC02Eval", 20000, 200000),
+            enum("operator-table", "TestC02OperatorTable"),
+            enum("precedence-triples", "TestC02PrecedenceTriples"),
+        ],
+    ),
     "C05": dict(
         technique="PBT + native fuzzing with a differential validity oracle (independent error listeners on the same grammar) and a constructed accept/reject catalogue",
         level_text="Arbitrary bytes, fragment soups, token/line mutations of all repository fixtures, node-boundary and byte-offset reader "
